@@ -37,6 +37,13 @@ def pathExact (p out : Str) : Bool := !validEncoded p || decide (out = p)
 def pathDecoded (p out : Str) : Bool := decide (unescape .path out = unescape .path p)
 def pathNorm (p out : Str) : Bool := decide (rfcNorm out = rfcNorm p)
 
+/-- the exact shape of the known defect C04-invalid-raw-byte-reencoded: the path holds a byte net/url does not accept
+    raw, and what arrives is net/url's re-encoding of the decoded path -/
+def pathKnownReencoding (p out : Str) : Bool :=
+  !validEncoded p && (match unescape .path p with
+    | some P => decide (out = escape .path P)
+    | none => false)
+
 /-! ## query: "same query parameters" = equal as parsed multimaps -/
 def queryOK (q q' : Str) : Bool :=
   let a := parseQuery q
@@ -213,18 +220,18 @@ def tableDispatch (s : Scenario) : Outcome :=
 
 /-- The decision table of DESIGN.md §5 C04 in closed form: the first condition that holds decides. -/
 def table (s : Scenario) : Outcome :=
-  if !s.labelsUTF8 then .aborted
+  if !s.requestInfoOK then .plainError 500
   else if s.hostIsIP then
     (if !s.authOK then .terminated ⟨401, none, ⟨kStatus, kV1, kFailure, kUnauthorized, 401⟩⟩
      else match s.imp with
-       | .malformed => .plainError 500
+       | .malformed => .terminated ⟨500, none, ⟨kStatus, kV1, kFailure, kInternalError, 500⟩⟩
        | .refused => .terminated ⟨403, none, ⟨kStatus, kV1, kFailure, kForbidden, 403⟩⟩
        | _ => .notProxied)
   else if !s.clusterKnown then .terminated ⟨503, some Gen.C04.unavailableRetryAfter, ⟨kStatus, kV1, kFailure, kServiceUnavailable, 503⟩⟩
   else if s.denyAll then .terminated ⟨429, none, ⟨kStatus, kV1, kFailure, kTooManyRequests, 429⟩⟩
   else if !s.authOK then .terminated ⟨401, none, ⟨kStatus, kV1, kFailure, kUnauthorized, 401⟩⟩
   else match s.imp with
-    | .malformed => .plainError 500
+    | .malformed => .terminated ⟨500, none, ⟨kStatus, kV1, kFailure, kInternalError, 500⟩⟩
     | .refused => .terminated ⟨403, none, ⟨kStatus, kV1, kFailure, kForbidden, 403⟩⟩
     | _ => tableDispatch s
 
